@@ -4,9 +4,10 @@ never a raw C++ exception, whatever the annotation value; C17: the annotation's 
 import re, os
 from tools import cxx2c
 from tools.cxx2c import Lower, Unsupported, kids, qt, qt_sugar, strip, strip_parens, callee_name, norm_type, walk
+from tools.cxx2c import REPO as _REPO
 
 NAME = 'LDSH'
-SRC = '/repo/src/bloch/compiler/import/module_loader.cpp'
+SRC = _REPO + '/src/bloch/compiler/import/module_loader.cpp'
 NAMESPACE = 'bloch::compiler'
 FUNCS = []
 AST_FILTER = ['ModuleLoader::load']
